@@ -14,19 +14,19 @@ CLAIMED = {
          "Covers generated batches only; validity model checks necessary conditions (sufficiency is observed, not claimed); covenants outside the reference interpreter's domain give no claim.", "6/C02"),
  "C03": ("equality-across-executions monitor: one set of transactions under all/random permutations x rayon pools of 1/2/4/16 threads x repeated HashSet iteration orders x fresh processes, plus ThreadSanitizer in the thorough tier",
          "Sets of 1-5 members under all permutations (up to 4: on every pool size), larger sets under random permutations; members independent, chained, DAG-shaped, with an invalid member or a duplicate; all outcomes (accepted?, sealed header) equal, equal to one-at-a-time application in dependency order; the resulting block applied 6 times with rebuilt HashSets; a seeded scenario re-run in 2 fresh processes. The thorough tier re-runs the workload in a ThreadSanitizer build and counts race reports.",
-         "Schedules are varied by pool size, permutation, HashSet seed and process, not enumerated; a TSan build failure is reported as 'sanitizer unavailable', never as a violation.", "6/C03"),
+         "One set in five is a single invalid transaction with a rule-exempt part (new-token output next to an unbalanced one), run 16 times; sets of one or two members run four times per (order, pool). Schedules are varied by pool size, permutation, HashSet seed and process, not enumerated; a TSan build failure is reported as 'sanitizer unavailable', never as a violation.", "6/C03"),
  "C04": ("differential monitor of apply_tx acceptance against the reference interpreter evaluated per input on the reference environment heap",
          "Tens of thousands of (fabricated state, transaction) cases in which only authorisation is in question: 1-8 inputs from 13 covenant families (standard signatures with wrong key/slot/message/truncation/tampering, hash-, time-, index-, value-, data-, height-, parent-index-, output-count-bound, self-hash, random programs), inputs sharing a covenant hash with different environments, missing and corrupted covenants; accepted => every input authorised; for standard signature covenants all authorised => accepted.",
-         "Sufficiency is claimed for the standard signature covenants only; covenants leaving the reference interpreter's domain give no claim.", "6/C04"),
+         "One case in 150 has 250-309 inputs with the questionable ones around and beyond position 255. Sufficiency is claimed for the standard signature covenants only; covenants leaving the reference interpreter's domain give no claim.", "6/C04"),
  "C05": ("exact-arithmetic monitor of fee_pool/tips (hooked snapshots) per batch and around the proposer phase, plus threshold probes at min-1 / min / min+k found by fixpoint",
          "Random histories at multipliers {0,1,2,100,10^6,2^40,2^64,2^100} and thousands of threshold probes (0-8 inputs, 1-60 outputs, extra covenants of every weight class incl. heavy loops and undecodable bytes): accepted => fee >= floor(refweight*mult/65536); below => rejected; pool += sum(min), tips += sum(fee-min) exactly; reward coin = pool>>16 + tips to the destination at the current height with pool/tips debited exactly; no action => nothing moves.",
-         "Reference weight uses the reference covenant weight (cross-checked against the implementation by C12); multipliers above 2^100 and saturating pools are exercised by C09 only.", "6/C05"),
+         "Pending tips must equal what the block's own accepted transactions paid above their minimum, before every batch and at the start of sealing. Reference weight uses the reference covenant weight (cross-checked against the implementation by C12); multipliers above 2^100 and saturating pools are exercised by C09 only.", "6/C05"),
  "C06": ("differential monitor of SealedState::apply_block against the statement's own criterion recomputed through the public API, on honest and singly-mutated blocks",
          "Every block of random histories (all network classes, TIP-908 included) is applied to its parent as produced and under one mutation each of the 11 header fields, a transaction removed/added/altered, the proposer action added/dropped/changed, and to the wrong parent; accept iff the batch is valid and the recomputed header equals the declared one; the returned state has the declared header.",
-         "The expected header is computed with the implementation's own apply_tx_batch and seal (that is what the property states); their correctness is the business of the other properties.", "6/C06"),
+         "A block sealed by the honest producer (batch after batch, incl. speed-raising mints followed by further batches) must be accepted whatever the one-batch recomputation says. The expected header is computed with the implementation's own apply_tx_batch and seal (that is what the property states); their correctness is the business of the other properties.", "6/C06"),
  "C07": ("structural monitor of every sealed state against an independent reference Merkle function, plus operation-order and single-component sensitivity experiments",
          "Chaining (height, previous, network, history(h) for recorded ancestors); coins/pools/history/stakes/transactions roots recomputed from iterated contents (sparse and TIP-908 dense); inclusion proofs of entries verified by the library and by a reference verifier, tampered values and absent keys; every block transaction at its sorted position; equal maps built by different operation orders and detours; sibling states differing in one of 14 components.",
-         "blake3 is trusted; entries are sampled (24 per tree per state) when trees are larger.", "6/C07"),
+         "Sibling states draw fee pool, fee multiplier and DOSC speed from 0..2^128-2 and their headers must carry the three scalars unchanged. blake3 is trusted; entries are sampled (24 per tree per state) when trees are larger.", "6/C07"),
  "C08": ("two-lineage monitor: original state versus a state rebuilt from serialized block + rebuilt stake set + node-by-node copy of the content-addressed store, fed identical continuations",
          "After every sealed block of random histories a restarted lineage is created and fed the same next 5 blocks (valid and hostile batches, proposer actions); accept/reject and the whole header must agree after every step. Restart points cover with/without action, pending tips, empty blocks, epoch boundaries, testnet 499->500 and fabricated mainnet activation heights.",
          "The copied store is an in-process deep copy (no shared memory with the original), not a real disk.", "6/C08"),
@@ -38,7 +38,7 @@ CLAIMED = {
          "Shift counts are taken modulo 256 (DESIGN 5.6). Corners the specification does not pin down (loop body past the end or empty, lengths > 2^22) are excluded and counted; ed25519 and blake3 are trusted. Thorough tier adds an AddressSanitizer run of half the quick workload and a token run under Miri (observers: reports are recorded; a monitor violation seen there counts).", "6/C10"),
  "C11": ("resource monitors on adversarial program families: hooked step counter vs weight, hooked weigh-work counter, counting allocator, with explicit polynomial budgets",
          "Nested/sibling/overrunning loops up to depth 22 (40 thorough), jump-heavy code, and byte/vector self-append doubling up to 70 rounds followed by each consuming opcode in every operand position are grown until the first budget excess: executed instructions <= weight exactly; weighing work <= 4n^2+64 visits; peak memory <= 1 MiB + 4 KiB*(weight+code+heap), cumulative <= 64x.",
-         "Budgets are explicit constants chosen with >= 100x slack over linear-time behaviour; wall-clock is recorded but never decides. Lengths >= 2^64 trap only under overflow checks inside the catvec dependency and are excluded (verified silent in a production-like build).", "6/C11"),
+         "Paid-work probes (instructions executed inside apply_tx versus the fee offered) include covenants whose weight no fee can cover, jumped over or listed unused. Budgets are explicit constants chosen with >= 100x slack over linear-time behaviour; wall-clock is recorded but never decides. Lengths >= 2^64 trap only under overflow checks inside the catvec dependency and are excluded (verified silent in a production-like build).", "6/C11"),
  "C12": ("exhaustive + randomized differential monitor of the codec against an independent reference decoder/encoder",
          "All 16.8M byte strings of length <= 3 are enumerated on every run, plus operand-class, truncation, trailing-byte, mutated and random-instruction-list cases; each is checked for decodability agreement, both round trips, and weight/hash equality bytes vs instructions vs reference.",
          "Exhaustive only up to 3 bytes; longer inputs are sampled, including programs of up to ~135000 instructions around the 2^8/2^16/2^17 instruction counts. The reference decoder was written from the opcode table. Thorough tier adds a token run under Miri.", "6/C12"),
@@ -46,7 +46,7 @@ CLAIMED = {
          "Histories fabricated 1-3 blocks before k*200000 on networks/heights outside the legacy windows, with pre-existing stakes ending in the current/next/later epochs and stake transactions in every ordering of (current,start,end), amount mismatches, wrong denominations and undecodable documents; registered set, votes()/total_votes() over 5 epochs and stakes_hash follow the model; each registered stake's coin is refused (same batch, same block, later blocks) until the epoch after `end`, then accepted.",
          "Legacy windows (mainnet/testnet below 500000/900000) are outside the property's domain and exercised under C09.", "6/C13"),
  "C14": ("exhaustive subset enumeration monitor on SealedState::confirm over fabricated stake distributions",
-         "For every weight tuple from {1,2,3,5,8}^n (n<=4 exhaustive, n=5,6 sampled) every signer subset is confirmed against real signatures and compared with the 2/3 rule in exact arithmetic; corrupted, swapped, foreign and truncated signatures must never confirm; supersets never un-confirm.",
+         "For every weight tuple from {1,2,3,5,8}^n (n<=4 exhaustive, n=5,6 sampled) every signer subset is confirmed against real signatures and compared with the 2/3 rule in exact arithmetic; corrupted, swapped, foreign and truncated signatures must never confirm; supersets never un-confirm; valid signatures of non-voters change nothing; the full proofs of a state, its child and the child's sibling are offered to one another after each has confirmed its own and must not confirm.",
          "Stake sets are fabricated through from_block; ed25519 is trusted.", "6/C14"),
  "C15": ("settlement monitor over hooked snapshots around the swap, deposit and withdrawal phases against exact big-integer arithmetic",
          "Pool-heavy histories (every kind x every spelling of a pool name, 1-30 requests per pool on both sides, amounts 1..2^120, built-in/custom/new pools): R1 only genuine requests' outputs change (everything else bit-identical, also outside the phases), R2 pro-rata floors, R3 product never falls, R4 payout <= constant product less 0.5%, R5 reserves credited exactly / debited within dust, R6 mint/burn formulas, issued <= minted and proportional, R7 each side only takes and pays the canonical denomination of its storage slot.",
@@ -59,7 +59,7 @@ CLAIMED = {
          "Multipliers beyond 2^70 are checked for totality and direction only.", "6/C17"),
  "C18": ("differential monitor of DoscMint acceptance and header dosc_speed against a reference that calls melpow with the harness's own hash functions and exact reward arithmetic",
          "Real proofs (legacy and TIP-910 hash, difficulty 1-10 quick / 14 thorough), coin ages 1-200, previous speeds 1-10^6, ERG at reward-1/reward/reward+1, mainnet age rule, corruptions (flipped byte, dropped node, other coin, other height, stated difficulty +-1, garbage data), several mints per block in different orders: accept iff decodes, verifies for the right puzzle, ERG <= reference reward and (mainnet) age >= 100; dosc_speed = max(previous, demonstrated) and never decreases.",
-         "melpow's verifier is trusted as a library (called from the harness under catch_unwind); difficulties are limited by what can be proven in the time budget.", "6/C18"),
+         "For the random workload 'the proof verifies' is melpow's verifier called with the harness's own hash functions; that verifier does not tie the openings to the commitment, so every run also offers forged proofs (labels made up, one hash per challenged leaf, difficulties 6-56, both hashes, a custom network and mainnet) - their acceptance is the known finding F23 (known_findings.json, DESIGN section 13), printed as KNOWN-FINDING and not counted. Honest difficulties are limited by what can be proven in the time budget.", "6/C18"),
  "C19": ("exactly-once monitor over faucet application histories on all nine networks with replay at every later point and after restart",
          "Faucet transactions of many shapes (0-255 outputs, all denominations, the grandfathered mainnet transaction on every network) are applied and replayed in the same batch, a later batch of the same block, 1-30 blocks later, with a different sigs field, inside other batches, and after a from_block restart on a copied store; on mainnet only the grandfathered hash may be accepted, elsewhere each hash at most once per lineage.",
          "Repeated acceptance of the grandfathered transaction on mainnet itself is outside the property's wording and is not flagged.", "6/C19"),
